@@ -19,7 +19,10 @@ SmallValues == {<<>>, <<97>>, <<97, LF>>, <<97, LF, LF, 98>>, <<97, LF, SP, 98, 
 PE == [order |-> <<>>, values |-> <<>>]
 P1(v) == [order |-> << <<75>> >>, values |-> << <<<<75>>, v>> >>]
 P2(v, w) == [order |-> << <<75>>, <<76, 45, 77>> >>, values |-> << <<<<75>>, v>>, <<<<76, 45, 77>>, w>> >>]
+\* two fields whose names differ in letter case only: two fields (a paragraph is what its Order says)
+PCase(v, w) == [order |-> << <<75>>, <<107>> >>, values |-> << <<<<75>>, v>>, <<<<107>>, w>> >>]
 ParaVecs == {[k |-> "write", paras |-> <<P1(v)>>] : v \in Values}
+       \cup {[k |-> "write", paras |-> <<PCase(v, w)>>] : v \in {<<97>>, <<97, LF, 98>>}, w \in {<<99>>, <<>>}}
        \cup {[k |-> "write", paras |-> <<P2(v, w)>>] : v \in SmallValues, w \in Values}
        \cup {[k |-> "write", paras |-> <<P1(v), P2(w, v), P1(w)>>] : v \in SmallValues, w \in SmallValues}
        \* paragraphs without any field between / before / after real ones: they must not eat a separator
